@@ -92,6 +92,8 @@ func tree(r *json.Object) *json.Tree {
 
 func init() {
 	// ---------------------------------------------------------------- init
+	// an empty document: {}
+	reg("init.none", func(r *json.Object, _ *document.Presence, v int) {})
 	reg("init.o", func(r *json.Object, _ *document.Presence, v int) {
 		r.SetNewObject("o").SetInteger("k1", 0).SetInteger("k2", 0)
 	})
